@@ -46,6 +46,14 @@ def sacStep (bank : Bank) (t : List String) (implObs : String) : Option (Bank ×
       | some a => some (bank.addToken a, ⟨implObs, "env"⟩)
       | none => some (bank, ⟨"parse-error:sac.new", "parse-error"⟩)
     | _ => some (bank, ⟨"parse-error:sac.new", "parse-error"⟩)
+  | ["itok.new", _addr, _owner] =>
+    -- the repository's OWN token contract (built from the current source) used as a gas token: for the gas service it is a
+    -- token like any other (the Bank model); `sac.mint` on it is the owner's `mint`
+    match implObs.splitOn " " with
+    | ["ok", a] => match parseAddr a with
+      | some a => some (bank.addToken a, ⟨implObs, "env"⟩)
+      | none => some (bank, ⟨"parse-error:itok.new", "parse-error"⟩)
+    | _ => some (bank, ⟨"parse-error:itok.new", "parse-error"⟩)
   | ["sac.mint", tok, to, amt] =>
     match parseAddr tok, parseAddr to, amt.toInt? with
     | some tok, some to, some a =>
